@@ -484,6 +484,43 @@ def check_c10(seed, tier):
         finally:
             wipe_user_cache()
             clean()
+    # the product is the directory, not the way its path is written: every spelling (trailing slash, `.` / `..` segments, doubled
+    # slash, symlink, `file://` URL, relative to the working directory, `pathlib.Path`) gives the tree of the absolute path,
+    # uncached and through a cache written under another spelling
+    import pathlib
+    for level in (("1.5",) if tier == "quick" else ("1.1", "1.5")):
+        cfg = {"seed": rng.randrange(10**9), "level": level, "images": [("HH", None), ("HV", "F2")], "n_lines": 3, "n_pixels": 2}
+        prod = products.build(cfg)
+        path, clean = products.place(prod, "local")
+        wipe_user_cache()
+        parent, base = os.path.dirname(path), os.path.basename(path)
+        link = os.path.join(parent, "ln-" + base)
+        cwd = os.getcwd()
+        try:
+            os.symlink(path, link)
+            ref = fp(_open(path, use_cache=False, records_per_chunk=2))
+            os.chdir(parent)
+            forms = {"trailing-slash": path + "/", "dot-segment": parent + "/./" + base, "dotdot-segment": path + "/../" + base,
+                     "doubled-slash": parent + "//" + base, "symlink": link, "file-url": "file://" + path,
+                     "file-url-trailing-slash": "file://" + path + "/", "relative": base, "relative-dot": "./" + base,
+                     "pathlib": pathlib.Path(path)}
+            for pass_no, opts in enumerate(({"use_cache": False}, {"use_cache": True, "create_cache": True}, {"use_cache": True})):
+                for name, form in forms.items():
+                    evals += 1
+                    distinct.add(("spelling", level, name, pass_no))
+                    case = {"cfg": cfg, "path_spelling": name, "options": opts}
+                    try:
+                        d = treecmp.diff(ref, fp(_open(form, records_per_chunk=2, **opts)))
+                        if d:
+                            viol.append({"case": case, "what": f"the product opened through the path spelling '{name}' differs from the absolute path: " + d})
+                    except Exception as e:  # noqa: BLE001
+                        viol.append({"case": case, "what": f"path spelling '{name}': {type(e).__name__}: {e}"[:300], "key": common.failure_site(e)})
+        finally:
+            os.chdir(cwd)
+            if os.path.islink(link):
+                os.remove(link)
+            wipe_user_cache()
+            clean()
     return {"name": "oracle:C10 history independence", "evaluations": evals, "distinct": len(distinct), "violations": viol, "samples": samples}
 
 
